@@ -2,6 +2,7 @@ package main
 
 import (
 	"fmt"
+	"time"
 	"go/ast"
 	"go/types"
 	"runtime/debug"
@@ -58,6 +59,14 @@ func (e *Engine) mergeReturns(fr *Frame) (*State, []Val) {
 
 func (w *World) verifyFunc(fn *ssa.Function, ct *Contract, mode Mode) (res *FuncResult) {
 	e := newEngine(w, fn, ct, mode)
+	termBytes = 0
+	if w.sweep {
+		e.deadline = time.Now().Add(20 * time.Second)
+		termBudget = 300 << 20
+	} else {
+		e.deadline = time.Now().Add(120 * time.Second)
+		termBudget = 2 << 30
+	}
 	res = &FuncResult{Key: e.key, Mode: mode.String(), Engine: e, Sweep: w.sweep}
 	if ct != nil {
 		res.Props = ct.Props
@@ -91,7 +100,8 @@ func (w *World) verifyFunc(fn *ssa.Function, ct *Contract, mode Mode) (res *Func
 		e.assume(e.wfVal(v, st.alloc))
 		if pv, ok := v.(PtrV); ok {
 			nilable := ct != nil && ct.Nilable[p.Name()]
-			if ct != nil && !nilable && !w.sweep {
+			isRecv := fn.Signature.Recv() != nil && len(fr.args) == 0
+			if (ct != nil && !nilable && !w.sweep) || (w.sweep && isRecv) {
 				e.assume(Not(Eq(pv.Rid, e.ridLit(0))))
 				pv.NonNil = true
 				v = pv
